@@ -72,11 +72,11 @@ func grammarPopulated(p *core.Program) map[string]token.Pos {
 
 // parseCovNoEffect: grammar-populated fields that octosql's parser may ignore because they cannot change a result.
 var parseCovNoEffect = map[string]string{
-	"Select.Comments":         "SQL comments carry no semantics",
-	"Select.Cache":            "SQL_CACHE / SQL_NO_CACHE are MySQL execution hints",
-	"Select.Hints":            "STRAIGHT_JOIN is a join-order hint; the result is the same join",
-	"Select.Lock":             "FOR UPDATE / LOCK IN SHARE MODE concern locking in a read-write store; octosql only reads",
-	"AliasedTableExpr.Hints":  "USE/IGNORE/FORCE INDEX are index hints",
+	"Select.Comments":        "SQL comments carry no semantics",
+	"Select.Cache":           "SQL_CACHE / SQL_NO_CACHE are MySQL execution hints",
+	"Select.Hints":           "STRAIGHT_JOIN is a join-order hint; the result is the same join",
+	"Select.Lock":            "FOR UPDATE / LOCK IN SHARE MODE concern locking in a read-write store; octosql only reads",
+	"AliasedTableExpr.Hints": "USE/IGNORE/FORCE INDEX are index hints",
 }
 
 // checkParserCoverage (PARSECOV): for every sqlparser node type that octosql's own parser (parser/parser.go) handles,
@@ -270,4 +270,91 @@ func checkTupleTranslation(c *core.Ctx, rule string) {
 		})
 	}
 	c.Decide(bad == "" && n >= 1, rule, key, clause.Pos(), n, "every successful path yields a tuple of all elements", bad)
+}
+
+// checkTopLevelLimit (TOPLIMIT): the LIMIT of the outermost query is evaluated once, with no record at hand
+// (ExecutionContext.VariableContext is nil), and its value is read through the Int payload. So it must be typechecked
+// (a) in an environment without the output record's schema — otherwise `LIMIT col` typechecks and dereferences the nil
+// variable context — and (b) against the expected type Int — otherwise `LIMIT 'a'` reads the zero Int payload.
+func checkTopLevelLimit(c *core.Ctx, rule string) {
+	p := c.Prog
+	pkg := p.Pkg("cmd")
+	if pkg == nil {
+		c.Unknown(rule, "cmd", 0, "package not found")
+		return
+	}
+	info := pkg.TypesInfo
+	var block *ast.IfStmt
+	for _, f := range pkg.Syntax {
+		ast.Inspect(f, func(n ast.Node) bool {
+			if is, ok := n.(*ast.IfStmt); ok && core.ExprStr(is.Cond) == "outputOptions.Limit != nil" && block == nil {
+				block = is
+			}
+			return true
+		})
+	}
+	key := "cmd.rootCmd/top-level LIMIT"
+	if block == nil {
+		c.Unknown(rule, key, 0, "the `if outputOptions.Limit != nil` block was not found")
+		return
+	}
+	var tcCall *ast.CallExpr
+	ast.Inspect(block.Body, func(n ast.Node) bool {
+		call, ok := n.(*ast.CallExpr)
+		if !ok {
+			return true
+		}
+		for _, a := range call.Args {
+			if core.ExprStr(a) == "*outputOptions.Limit" {
+				tcCall = call
+			}
+		}
+		return true
+	})
+	if tcCall == nil {
+		c.Unknown(rule, key, block.Pos(), "no call typechecking *outputOptions.Limit was found")
+		return
+	}
+	// (a) environment: no argument adds a record schema or a variable mapping
+	badEnv := ""
+	for _, a := range tcCall.Args {
+		s := core.FullStr(a)
+		if strings.Contains(s, "WithRecordSchema(") {
+			badEnv = "the limit is typechecked in " + core.ExprStr(a) + ": column references resolve, but the limit is evaluated once with a nil variable context, so `LIMIT col` dereferences nil"
+		}
+		if strings.Contains(s, "UniqueVariableNames") {
+			badEnv = "the limit is typechecked with the output record's variable mapping: column references resolve, but the limit is evaluated once with a nil variable context, so `LIMIT col` dereferences nil"
+		}
+	}
+	c.Decide(badEnv == "", rule, key+"/scope", tcCall.Pos(), 1, "typechecked without the record schema", badEnv)
+	// (b) expected type Int: the call reaches logical.TypecheckExpression with octosql.Int
+	expectsInt := false
+	callee := p.CalleeName(info, tcCall)
+	hasIntArg := false
+	for _, a := range tcCall.Args {
+		if core.ExprStr(a) == "octosql.Int" {
+			hasIntArg = true
+		}
+	}
+	if callee == "logical.TypecheckExpression" && hasIntArg {
+		expectsInt = true
+	} else if hasIntArg {
+		for _, fr := range p.AllFuncs("cmd") {
+			if p.FName(fr) != callee {
+				continue
+			}
+			ast.Inspect(fr.Decl.Body, func(n ast.Node) bool {
+				if call, ok := n.(*ast.CallExpr); ok && p.CalleeName(fr.Info(), call) == "logical.TypecheckExpression" && len(call.Args) == 5 {
+					if id, ok := call.Args[3].(*ast.Ident); ok {
+						if _, isParam := fr.Info().Uses[id].(*types.Var); isParam {
+							expectsInt = true
+						}
+					}
+				}
+				return true
+			})
+		}
+	}
+	c.Decide(expectsInt, rule, key+"/type", tcCall.Pos(), 1, "typechecked against the expected type Int",
+		"the limit expression is typechecked without an expected type (callee "+callee+"): a String, Float or NULL limit is accepted and read through the Int payload, which is 0 — the query prints nothing and exits 0")
 }
